@@ -25,6 +25,15 @@
 //! non-trivial case (rep.nontrivial): a configuration/input whose real output was produced without
 //! panic, parsed by the RFC reader and (where a decode applies) decoded to the input.
 //!
+//! Hooks used (cfg brotli_verif): `verif_hooks::base_128`, `encode::verif_make_uncompressed_stream`,
+//! `encode::verif_stream_hook` (thread-local event log of payload-encoder invocations: drained after
+//! EVERY encoder call made on a harness thread, it panics after 2^20 undrained events; the events
+//! of the never-flushed streams are used to check the hypotheses Guard / BlocksOK of the Lean
+//! theorem `stream_total_le_bound_partial`).
+//!
+//! Replay aid: `bvh header probe <q> <lgwin> <lw> <cat> <app> <magic> <hint> <n> <content kind> [chunk] --seed S`
+//! prints the stream length, the bound and the first bytes of one never-flushed stream.
+//!
 //! Corpus: none (every case is enumerated or derived from the seed).
 use crate::prng::Rng;
 use crate::util::*;
